@@ -345,7 +345,11 @@ def replay_dm(chk, e, n, rng, exp_table):
     one = st.pi_grad(sp[i], sp[j], phase=False, expand=False)
     wp = [gA[i][j][q] if q in pi_slots else mpmath.mpc(0) for q in range(npar)]
     c.vec("density:pi_grad[1-D].real", one[0], [mpmath.re(x) for x in wp], 4e-9, e["layout"])
-    pr = st.rbm_am.gamma_grad(sp[[i, j]], sp[[j, i]], eta=+1, expand=False)
+    # (the published defaults left out every other point: eta = +1, expand = False, phase = False)
+    if n % 2:
+        one = st.pi_grad(sp[i], sp[j])
+        c.vec("density:pi_grad[1-D, defaults].real", one[0], [mpmath.re(x) for x in wp], 4e-9, e["layout"])
+    pr = st.rbm_am.gamma_grad(sp[[i, j]], sp[[j, i]]) if n % 2 else st.rbm_am.gamma_grad(sp[[i, j]], sp[[j, i]], eta=+1, expand=False)
     c.vec("density:gamma_grad[expand=False]", pr[0, 0], [zero if q in pi_slots else mpmath.re(gA[i][j][q]) for q in range(npar)], 1e-10, e["layout"])
     # ---- rotated rows and datasets
     m = rng.randint(1, 4)
